@@ -94,10 +94,13 @@ def oracle(case, out):
             if both:
                 return "MH (seed=%s): seed %d is used for an acceptance and a proposal generator" % (case["seed"], sorted(both)[0])
     else:
-        d = pairwise_distinct(out["per_chain"])
+        # chains that never left their state (every proposal rejected) coincide without sharing randomness: only chains
+        # that moved are compared (thorough tier, 64 MH chains x 6 steps: two all-rejecting chains were reported — false alarm)
+        idx = [i for i, mv in enumerate(out.get("moved", [True] * len(out["per_chain"]))) if mv]
+        d = pairwise_distinct([out["per_chain"][i] for i in idx])
         if d:
             return "%s/%s (%s): chains %d and %d started from one common state follow identical trajectories" % (
-                case["kind"], case["f"], how, d[0], d[1])
+                case["kind"], case["f"], how, idx[d[0]], idx[d[1]])
     return None
 
 
@@ -106,6 +109,8 @@ def finding_class(case, out, d):
 
 
 def nontrivial(case, out):
+    if isinstance(out, dict) and "moved" in out:
+        return sum(out["moved"]) >= 2
     return case["n_chains"] >= 2
 
 
